@@ -210,23 +210,6 @@ func lpdlCase(bits int) *interactive {
 	return ia
 }
 
-// iaChild is the child-process side of an isolated interactive run.
-func (ia *interactive) child(m, idx int) (bool, string) {
-	none := func(int, []byte) []byte { return nil }
-	_, _, msgs := ia.run(none, false)
-	eds := enumerateEdits(msgs[m], ia.mode, ia.idx)
-	if idx >= len(eds) {
-		return false, "HARNESS:edit index out of range"
-	}
-	acc, st, _ := ia.run(func(msg int, raw []byte) []byte {
-		if msg != m {
-			return nil
-		}
-		return eds[idx].gen(newWalker(raw))
-	}, false)
-	return acc, st
-}
-
 // iaBody: choice = protocol x message x chunk of edits.
 func iaBody(ias []*interactive) func(*engine.X) {
 	none := func(int, []byte) []byte { return nil }
@@ -266,27 +249,49 @@ func iaBody(ias []*interactive) func(*engine.X) {
 		ch := x.Choose("chunk", nChunks)
 		lo, hi := ch*iaChunk, min((ch+1)*iaChunk, len(eds))
 		stages := map[string]int{}
+		// structure-changing edits run in a child process (batched): a panic in a library goroutine is unrecoverable
+		var risky []int
+		for idx := lo; idx < hi; idx++ {
+			if c := eds[idx].class; c != "bit" && c != "splice" {
+				risky = append(risky, idx)
+			}
+		}
+		childRes := map[int]childResult{}
+		if len(risky) > 0 {
+			rs := runBatch(len(risky), func(from, to int) (string, []byte) {
+				var fs []string
+				for _, i := range risky[from:to] {
+					fs = append(fs, fmt.Sprint(i))
+				}
+				return fmt.Sprintf("ia|%s|%d|%s", ia.name, m, strings.Join(fs, ",")), nil
+			})
+			for k, i := range risky {
+				childRes[i] = rs[k]
+			}
+		}
 		for idx := lo; idx < hi; idx++ {
 			ed := eds[idx]
 			x.Case(fmt.Sprintf("%s/msg%d/%s", ia.name, m, ed.desc))
-			acc, st, _ := ia.run(func(msg int, raw []byte) []byte {
-				if msg != m {
-					return nil
-				}
-				return ed.gen(newWalker(raw))
-			}, true)
-			if strings.HasPrefix(st, "ISOLATE:") {
-				res := runChild(fmt.Sprintf("ia|%s|%d|%d", ia.name, m, idx), nil)
+			var acc bool
+			var st string
+			if res, ok := childRes[idx]; ok {
 				switch res.outcome {
 				case "ACCEPT":
 					acc, st = true, "accept"
 				case "REJECT":
-					acc, st = false, "isolated-"+res.detail
+					acc, st = false, res.detail
 				case "PANIC":
 					acc, st = false, "PANIC@"+res.site+"|"+res.detail
 				default:
 					acc, st = false, "CRASH@"+res.site+"|"+res.detail
 				}
+			} else {
+				acc, st, _ = ia.run(func(msg int, raw []byte) []byte {
+					if msg != m {
+						return nil
+					}
+					return ed.gen(newWalker(raw))
+				}, false)
 			}
 			switch {
 			case strings.HasPrefix(st, "CRASH@"):
